@@ -87,12 +87,26 @@ func scenC02(r *Run, job *Job) {
 			extras[i].post = append([]Op{{Kind: kind, Arg: "last", Body: []byte(fmt.Sprintf("DUP-%d", i+1))}}, extras[i].post...)
 		}
 	}
+	// concurrent duplicates: the legitimate answer of an "ok" invocation is submitted twice at the same moment, on two
+	// connections (as /response + /response or /response + /error with the same body)
+	races := make([]string, nInv)
+	if profile == "adversary" {
+		for i := range races {
+			if modes[i] == "ok" && t.Chance(1, 4) {
+				races[i] = []string{"response", "error"}[t.Draw(2)]
+			}
+		}
+	}
 	e.BehavFor = BehavForExts(exts, func(p *Proc, b *Behav) {
 		if !p.IsRT {
 			return
 		}
 		b.PerInv = func(inv *Invocation) *InvBehav {
 			switch modes[inv.N-1] {
+			case "ok":
+				if races[inv.N-1] != "" {
+					return &InvBehav{Body: []byte(fmt.Sprintf("resp-%d:", inv.N) + string(inv.Payload)), Race: races[inv.N-1]}
+				}
 			case "error":
 				return &InvBehav{Mode: "error", ErrType: "Function.Sim", Body: []byte(fmt.Sprintf("ERR-%d", inv.N))}
 			case "stall":
@@ -177,6 +191,20 @@ func scenC02(r *Run, job *Job) {
 				r.NonTriv = true
 			}
 		}
+		// of two concurrent submissions for the in-flight id exactly one is accepted
+		for _, c := range a.Calls {
+			if c.Pair == nil || !c.Done || !c.Pair.Done || c.Err != nil || c.Pair.Err != nil {
+				continue
+			}
+			acc := func(x *Call) bool { return x.Status == 202 }
+			r.Probe("concurrent-pair-judged")
+			r.NonTriv = true
+			r.Check(acc(c) != acc(c.Pair), "C02.concurrent-duplicate", "%s: two concurrent submissions for the in-flight id were answered %d and %d (exactly one may be accepted)", a.Who, c.Status, c.Pair.Status)
+			other := c.Pair
+			if acc(c) {
+				r.Check(other.Status >= 400 && other.Status < 500, "C02.concurrent-duplicate", "%s: the losing submission was answered %d", a.Who, other.Status)
+			}
+		}
 		// the legitimate protocol calls of a live runtime are never refused
 		for _, c := range a.Calls {
 			if c.Tag == "rt-next" && c.Done && c.Err == nil {
@@ -192,7 +220,7 @@ func scenC02(r *Run, job *Job) {
 		switch modes[i] {
 		case "ok":
 			want := []byte(fmt.Sprintf("resp-%d:", inv.N) + string(inv.Payload))
-			r.Check(st == 200 && bytes.Equal(body, want), "C02.effect-on-caller", "invocation %d (ok): %d %s", inv.N, st, summarize(body))
+			r.Check((st == 200 || races[i] == "error") && bytes.Equal(body, want), "C02.effect-on-caller", "invocation %d (ok): %d %s", inv.N, st, summarize(body))
 		case "error":
 			r.Check(bytes.Equal(body, []byte(fmt.Sprintf("ERR-%d", inv.N))), "C02.effect-on-caller", "invocation %d (error): %d %s", inv.N, st, summarize(body))
 		case "stall":
